@@ -58,8 +58,69 @@ ParamFailed(line) ==
    \cup (IF ~(line.q2 = line.q1 /\ line.h2 = line.h1 /\ line.c2 = line.c1) THEN {"second_validation_changes_nothing"} ELSE {})
    \cup (IF ~line.docSame THEN {"document_unchanged"} ELSE {})
 
+-----------------------------------------------------------------------------
+(* Histories (kind "hist", spec/Gen_C13H.tla): the L1 contract folded over the steps.  Per request the fold keeps     *)
+(*   cur     the JSON value the request carries according to L1 (the value sent; completed with its defaults by the   *)
+(*           first accepted validation with default-setting on; a fixed point from then on)                           *)
+(*   changed an accepted validation has completed cur with a default (the body was re-written)                       *)
+(*   rej     a validation with default-setting on has rejected the request (the body is as received or completed)     *)
+(*   pdone   an accepted validation with default-setting on has run: every absent parameter carries its default      *)
+(*   tried   some validation with default-setting on has run                                                         *)
+(* and every read of a body, whenever it happens, must yield what the request carries -- whatever was done to OTHER   *)
+(* requests in between: a request is not a view on shared storage.                                                    *)
+HInit(c) == [r \in DOMAIN c.reqs |-> [cur |-> c.reqs[r].v, changed |-> FALSE, rej |-> FALSE, pdone |-> FALSE, tried |-> FALSE]]
+
+Locs == {"query", "header", "cookie"}
+CarrierBad(r, x, o, q0) ==
+   (IF (r.skip \/ r.pp.query # "absent") /\ o.q # q0 THEN {"forwarded_query_unchanged"} ELSE {})
+   \cup (IF r.pp.header = "present" /\ o.hn # 1 THEN {"forwarded_header_unchanged"} ELSE {})
+   \cup (IF r.pp.cookie = "present" /\ o.cn # 1 THEN {"forwarded_cookie_unchanged"} ELSE {})
+   \cup (IF r.pp.header \in {"none", "absent"} /\ (r.pp.header = "none" \/ ~x.tried) /\ o.hn # 0 THEN {"forwarded_header_unchanged"} ELSE {})
+   \cup (IF r.pp.cookie \in {"none", "absent"} /\ (r.pp.cookie = "none" \/ ~x.tried) /\ o.cn # 0 THEN {"forwarded_cookie_unchanged"} ELSE {})
+   \* exactly once: one header value / one cookie, and each absent parameter decodes to its default in the forwarded request
+   \cup (IF x.pdone /\ r.pp.header = "absent" /\ o.hn # 1 THEN {"default_exactly_once_header"} ELSE {})
+   \cup (IF x.pdone /\ r.pp.cookie = "absent" /\ o.cn # 1 THEN {"default_exactly_once_cookie"} ELSE {})
+   \cup (IF x.pdone /\ r.pp.query = "absent" /\ ~("dq" \in DOMAIN o /\ Eq(o.dq, r.pdflt.query)) THEN {"default_appears_decodable_query"} ELSE {})
+   \cup (IF x.pdone /\ r.pp.header = "absent" /\ ~("dh" \in DOMAIN o /\ Eq(o.dh, r.pdflt.header)) THEN {"default_appears_decodable_header"} ELSE {})
+   \cup (IF x.pdone /\ r.pp.cookie = "absent" /\ ~("dc" \in DOMAIN o /\ Eq(o.dc, r.pdflt.cookie)) THEN {"default_appears_decodable_cookie"} ELSE {})
+
+ReadBad(r, x, o, sent) ==
+   LET hasP == "parsed" \in DOMAIN o
+       \* rejected with default-setting on: as received, or already completed with its defaults
+       alt == WithDefaults(r.schema, x.cur) IN
+   (IF ~x.changed /\ o.after # sent /\ (r.skip \/ ~(hasP /\ (Eq(o.parsed, x.cur) \/ (x.rej /\ Eq(o.parsed, alt)))))
+    THEN {IF x.rej THEN "body_readable_in_full" ELSE "body_readable_unchanged"} ELSE {})
+   \cup (IF x.changed /\ ~(hasP /\ Eq(o.parsed, x.cur)) THEN {"defaults_exactly_once"} ELSE {})
+   \cup (IF o.clen # o.len THEN {"content_length_matches"} ELSE {})
+   \cup (IF o.getbody # "<nil>" /\ o.getbody # o.after THEN {"getbody_yields_same"} ELSE {})
+
+RECURSIVE HistFold(_, _, _, _)
+HistFold(line, i, st, seen) ==
+   LET c == line.c IN
+   IF i > Len(c.steps) THEN {}
+   ELSE LET s == c.steps[i]  r == c.reqs[s.r]  o == line.obs[i]  x == st[s.r] IN
+        IF s.op = "V"
+        THEN LET w == IF r.skip THEN x.cur ELSE WithDefaults(r.schema, x.cur)
+                 ok == SecPasses(r.sec) /\ Valid(r.schema, w, "asreq")
+                 x2 == IF ok /\ ~r.skip
+                       THEN [x EXCEPT !.cur = w, !.changed = @ \/ ~Eq(w, x.cur), !.pdone = TRUE, !.tried = TRUE]
+                       ELSE [x EXCEPT !.rej = @ \/ (~ok /\ ~r.skip), !.tried = @ \/ ~r.skip]
+                 first == s.r \notin seen IN
+             (IF o.verdict \in {"panic", "crash", "hang"} THEN {"no_panic"} ELSE {})
+             \cup (IF ok /\ o.verdict = "error" THEN {IF first THEN "valid_request_accepted" ELSE "revalidates_same"} ELSE {})
+             \cup (IF ~ok /\ o.verdict = "ok" THEN {"invalid_request_rejected"} ELSE {})
+             \cup CarrierBad(r, x2, o, line.q0[s.r])
+             \cup HistFold(line, i + 1, [st EXCEPT ![s.r] = x2], seen \cup {s.r})
+        ELSE ReadBad(r, x, o, line.sent[s.r]) \cup CarrierBad(r, x, o, line.q0[s.r])
+             \cup HistFold(line, i + 1, st, seen)
+
+HistFailed(line) ==
+   IF Len(line.obs) # Len(line.c.steps) THEN {"history_realised"}
+   ELSE HistFold(line, 1, HInit(line.c), {}) \cup (IF ~line.docSame THEN {"document_unchanged"} ELSE {})
+
 Failed(line) ==
    IF line.doc # "ok" THEN {"document_rejected"}
+   ELSE IF line.c.kind = "hist" THEN (IF "obs" \in DOMAIN line THEN HistFailed(line) ELSE {"no_panic"})
    ELSE IF line.verdict1 \in {"panic", "crash", "hang"} \/ line.verdict2 \in {"panic", "crash", "hang"} THEN {"no_panic"}
    ELSE IF line.c.kind = "body" THEN BodyFailed(line) ELSE ParamFailed(line)
 
